@@ -14,6 +14,8 @@ PLAN = {
     "C09-1": ["C09"], "C09-2": ["C09"], "C13-1": ["C13"], "C13-2": ["C13"], "C15-1": ["C15"], "C15-2": ["C15"],
     "C16-1": ["C16"], "C16-2": ["C16", "C06"], "C17-1": ["C16", "C17"], "C17-2": ["C17"], "C18-1": ["C18"], "C18-2": ["C18"],
     "C19-1": ["C19"], "C19-2": ["C19"],
+    # third round
+    "C07-3": ["C07", "C04"], "C08-3": ["C08", "C04"], "C11-3": ["C11", "C02"],
 }
 
 
@@ -60,11 +62,12 @@ def main():
             detected = []
             for chk in plan[sid]:
                 t0 = time.time()
-                p = subprocess.run([os.path.join(VERIF, "check"), chk, "--tier", "quick", "--no-evidence"], cwd=VERIF, env=env,
+                only = os.environ.get("SEED_ONLY")  # restrict the quick tier to the harnesses matching a regex (a subset of the registered run)
+                p = subprocess.run([os.path.join(VERIF, "check"), chk, "--tier", "quick", "--no-evidence"] + (["--only", only] if only else []), cwd=VERIF, env=env,
                                    stdout=subprocess.PIPE, stderr=subprocess.STDOUT, text=True)
                 lines = [l for l in p.stdout.splitlines() if re.match(r"^(VIOLATION|UNDECIDED|NOT-REPRODUCED|KNOWN-FINDING|INCONCLUSIVE|TWIN-MISMATCH)", l)]
                 viol = [l.strip() for l in p.stdout.splitlines() if l.startswith("  violation:")]
-                runs.append({"check": chk, "exit": p.returncode, "seconds": round(time.time() - t0), "lines": lines[:12], "observed": viol[:6]})
+                runs.append({"check": chk, "only": only, "exit": p.returncode, "seconds": round(time.time() - t0), "lines": lines[:12], "observed": viol[:6]})
                 if p.returncode == 1:
                     detected.append(chk)
                 print(sid, chk, "exit", p.returncode, round(time.time() - t0), "s", (viol[:1] or lines[:1]))
